@@ -12,6 +12,7 @@ import json
 import multiprocessing
 import os
 import re
+import shutil
 import subprocess
 import sys
 import tempfile
@@ -159,8 +160,10 @@ def bounded_layer(pid, spec, tier, seed, timeout):
             "r=h.run(%r,%d)\n"
             "json.dump(r,open(%r,'w'),default=str)\n" % (mod, tier, seed, outp))
     t0 = time.time()
+    scratch = tempfile.mkdtemp(prefix='verif_h_')      # everything the harness leaves behind goes with this directory
     try:
-        p = subprocess.run([sys.executable, '-c', code], cwd=HERE, capture_output=True, text=True, timeout=timeout)
+        p = subprocess.run([sys.executable, '-c', code], cwd=HERE, capture_output=True, text=True, timeout=timeout,
+                           env=dict(os.environ, TMPDIR=scratch))
         if p.returncode != 0:
             return {'error': 'harness %s exited %d: %s' % (mod, p.returncode, (p.stderr or '')[-1500:])}
         with open(outp) as f:
@@ -175,6 +178,8 @@ def bounded_layer(pid, spec, tier, seed, timeout):
     finally:
         if os.path.exists(outp):
             os.unlink(outp)
+        subprocess.run(['pkill', '-f', 'gpg-agent --homedir %s' % scratch], capture_output=True)
+        shutil.rmtree(scratch, ignore_errors=True)
 
 
 # ------------------------------------------------------------------------------------------ known findings
